@@ -22,7 +22,7 @@ TECH = {
  "C18": "exhaustive comparison of the five character-class predicates with spec tables over all scalar values; exhaustive short-name acceptance table in four syntactic positions",
  "C19": "metamorphic monitor (parse twice; fresh vs shared context; before vs after) + hook invariant on the context stacks after every query",
 }
-CLAIMED = __import__("os").environ.get("CLAIMED", "C01 C02 C03 C04 C05 C06 C07 C08 C09 C10 C11 C18 C19").split()
+CLAIMED = __import__("os").environ.get("CLAIMED", "C01 C02 C03 C04 C05 C06 C07 C08 C09 C10 C11 C12 C13 C14 C15 C16 C17 C18 C19").split()
 ALL = ["C%02d" % i for i in range(1, 20)]
 commits = subprocess.run(["git", "-C", "/repo", "log", "--format=%h %s"], stdout=subprocess.PIPE, text=True).stdout.splitlines()
 hooks = [l.split()[0] for l in commits if l.split(" ", 1)[1].startswith("verif hook")]
